@@ -305,3 +305,18 @@ revert("f3-consume-int-overflow", "7a69f37", "C20.R4")
 # ---- seeded changes that led to new rules (kept as regression mutants)
 patch("s-c18b-revive-commit-early", "seeded/C18-B/patch.diff", "C18.R6")
 patch("s-c06d-release-conditional", "seeded/C06-D/patch.diff", "C06.R9")
+patch("s-c03c-join-many-break", "seeded/C03-C/patch.diff", "C03.R7")
+patch("s-c04c-nesting-narrowed", "seeded/C04-C/patch.diff", "C04.R4")
+patch("s-c08c-futex-sample-late", "seeded/C08-C/patch.diff", "C08.X3")
+patch("s-c08d-fallback-tag-late", "seeded/C08-D/patch.diff", "C08.R3")
+patch("s-c04d-cond-relock-no-recursion", "seeded/C04-D/patch.diff", "C04.R10")
+patch("s-c12b-join-no-wait", "seeded/C12-B/patch.diff", "C12.R6")
+patch("s-c15c-undo-wrong-size", "seeded/C15-C/patch.diff", "C15.R5")
+patch("s-c15d-user-stack-rounded", "seeded/C15-D/patch.diff", "C15.R5")
+patch("s-c16c-dtor-walk-break", "seeded/C16-C/patch.diff", "C16.R4")
+patch("s-c16d-key-id-start", "seeded/C16-D/patch.diff", "C16.R5")
+patch("s-c17d-main-sched-not-marked", "seeded/C17-D/patch.diff", "C17.R7")
+patch("s-c18c-frees-callers-pools", "seeded/C18-C/patch.diff", "C18.R8")
+patch("s-c18d-default-sched-leak", "seeded/C18-D/patch.diff", "C18.R2")
+patch("s-c20c-type-under-val", "seeded/C20-C/patch.diff", "C20.R6")
+patch("s-c20d-wrong-type-limit", "seeded/C20-D/patch.diff", "C20.R7")
